@@ -42,8 +42,14 @@ impl egg::CostFunction<Expr> for CostFn<'_> {
             SortAgg([keys, aggs, c]) => (costs(keys) + costs(aggs)) * rows(c) + build() + costs(c),
             Limit([_, _, c]) => build() + costs(c),
             TopN([_, _, _, c]) => (rows(id) + 1.0).log2() * rows(c) + build() + costs(c),
-            Join([_, cond, l, r]) => {
-                costs(cond) * rows(l) * rows(r) + build() + costs(l) + costs(r)
+            Join([t, cond, l, r]) => {
+                // The nested loop join executor does not implement right and full outer joins:
+                // never prefer it for them when a hash or merge join is available.
+                let unsupported = match self.egraph[*t].nodes[0] {
+                    RightOuter | FullOuter => 1e30,
+                    _ => 0.0,
+                };
+                unsupported + costs(cond) * rows(l) * rows(r) + build() + costs(l) + costs(r)
             }
             HashJoin([t, cond, lkey, rkey, l, r]) => {
                 let hash = match self.egraph[*t].nodes[0] {
